@@ -130,10 +130,14 @@ func c09Strategy(cc *run.Case, ns namedStrat, raceOnly bool) {
 	snaps := make([][]*asset.Snapshot, K)
 	want := make([][]strategy.Action, K)
 	wantRows := make([][]string, K)
+	orig := make([][]asset.Snapshot, K) // the snapshots as generated, before anything ran on them
 	for i := range snaps {
 		n := []int{2*ns.Warm + 25, ns.Warm + 3, 70, 2, ns.Warm + 40, 120}[i]
 		class := []string{gen.Walk, gen.Ties, gen.Walk2, gen.Walk, gen.Degen, gen.Dyadic}[i]
 		snaps[i] = reg.Snaps(gen.Bars(cc.R, class, n))
+		for _, sp := range snaps[i] {
+			orig[i] = append(orig[i], *sp)
+		}
 		if !raceOnly {
 			want[i] = runStrat(ns.New(), snaps[i])
 			if len(snaps[i]) > ns.Warm {
@@ -145,6 +149,22 @@ func c09Strategy(cc *run.Case, ns namedStrat, raceOnly bool) {
 				wantRows[i] = rows
 			}
 		}
+	}
+	// The snapshots belong to the caller and are shared by every strategy that
+	// is run on the asset: nothing may write to them.
+	untouched := func(when string) bool {
+		for i := range snaps {
+			for k, sp := range snaps[i] {
+				if *sp != orig[i][k] {
+					cc.Viol("", fmt.Sprintf("%s: %s the caller's snapshot %d of input %d reads %+v, it was %+v: the strategy wrote to its input", ns.Name, when, k, i, *sp, orig[i][k]), map[string]any{"strategy": ns.Name})
+					return false
+				}
+			}
+		}
+		return true
+	}
+	if !raceOnly && !untouched("after Compute and Report on fresh instances") {
+		return
 	}
 	shared := ns.New()
 	desc := map[string]any{"strategy": ns.Name}
@@ -201,6 +221,9 @@ func c09Strategy(cc *run.Case, ns namedStrat, raceOnly bool) {
 				return
 			}
 		}
+	}
+	if !raceOnly && !untouched("after the concurrent calls") {
+		return
 	}
 	if ns.Row != nil {
 		cc.Count("cmp:"+ns.Row.Name, 1)
